@@ -295,8 +295,8 @@ theorem C05_rep_wide_wraps :
     let b : NpArr := storeC .i true [1] [5]
     a.ty? = some .int32 ∧ a.elems = [.num 4294967301] ∧ b.ty? = some .int32 ∧ b.elems = [.num 5] ∧
     WF (.base .int32 [1]) (.array [.num 4294967301]) = false ∧
-    encArr a = encArr b := by
-  decide
+    encArr a = .ok [0, 0, 0, 1, 0, 0, 0, 1, 0, 0, 0, 5] ∧ encArr b = .ok [0, 0, 0, 1, 0, 0, 0, 1, 0, 0, 0, 5] :=
+  ⟨by decide, by decide, by decide, by decide, by decide, by decide, by decide⟩
 
 /-- dtypes without a DAP2 type (float16, longdouble, object): `NUMPY_TO_DAP2_TYPEMAP[dtype.char]` raises before any
     byte is sent (the handler answers with an Error document) -/
@@ -331,6 +331,41 @@ theorem C05_rep_record_independent (tys : List Ty) (cs cs' : List Cell) (vs : Li
   rw [encCellsFlat_of_vals tys cs vs h hwf, encCellsFlat_of_vals tys cs' vs h' hwf]
   exact ⟨rfl, rfl⟩
 
+/-- **scalars, whatever form they are given in**: `BaseType(name, x)` turns a Python `int`/`float`/`bool`/`str`/`bytes`
+    or a numpy scalar into `np.array(x)` (`_set_data`); a 0-d array stays what it is (either byte order).  The 0-d
+    array `Cell.toArr` builds for the form (dtype char of the value, `S<max(len,1)>` / `U<max(len,1)>` items,
+    NUL padded) is sent as the reference encoding of the value -/
+theorem C05_rep_scalar_forms (big : Bool) (c : Cell) (ty : Ty) (v : Val) (hv : c.val? = some v) (hok : c.ok = true)
+    (hty : c.ty? = some ty) (hw : wfVal ty v = true) :
+    Holds (c.toArr big) ty [] (.scalar v) ∧ encArr (c.toArr big) = .ok (XdrSpec.enc (.base ty []) (.scalar v)) :=
+  ⟨toArr_data big c ty v hv hok hty hw, encArr_toArr big c ty v hv hok hty hw⟩
+
+/-- **records on the general path of `_sequencetype`** (taken when a column is a Byte or an inner sequence: the
+    record is assigned to a template structure — every value becomes `np.array(value)` — and `dods(struct)` runs
+    `_basetype` on each): whatever forms the cells have, the record is sent as the reference encoding of its values -/
+theorem C05_rep_record_general_path (tys : List Ty) (cs cs' : List (Bool × Cell)) (vs : List Val)
+    (h : cellVals? (cs.map (·.2)) = some vs) (h' : cellVals? (cs'.map (·.2)) = some vs)
+    (hok : ∀ c ∈ cs, c.2.ok = true) (hok' : ∀ c ∈ cs', c.2.ok = true)
+    (ht : cs.map (·.2.ty?) = tys.map some) (ht' : cs'.map (·.2.ty?) = tys.map some)
+    (hwf : WFs (tys.map fun ty => .base ty []) (vs.map Data.scalar) = true) :
+    encCellsGeneral cs = encCellsGeneral cs' ∧
+    encCellsGeneral cs = .ok (XdrSpec.encs (tys.map fun ty => .base ty []) (vs.map Data.scalar)) := by
+  rw [encCellsGeneral_of_vals tys cs vs h hok ht hwf, encCellsGeneral_of_vals tys cs' vs h' hok' ht' hwf]
+  exact ⟨rfl, rfl⟩
+
+/-- **every numeric representation exists**: the C-contiguous array `storeC` builds from in-range values in any
+    numeric dtype char of the table, either byte order and any shape holds exactly those values (so the theorems
+    above are not vacuous for any dtype char × byte order × shape) -/
+theorem C05_rep_store_holds (c : NChar) (big : Bool) (ty : Ty) (n : Nat) (sh : List Nat) (vs : List Int)
+    (hty : tyOfNumpyChar c.code = some ty) (hlen : vs.length = prod (n :: sh)) (hv : ∀ v ∈ vs, c.holds v = true) :
+    Holds (storeC c big (n :: sh) vs) ty (n :: sh) (.array (vs.map Val.num)) := by
+  refine ⟨hty, rfl, ?_⟩
+  unfold NpArr.data?
+  have hsh : (storeC c big (n :: sh) vs).shape = n :: sh := rfl
+  rw [hsh, storeC_elems c big (n :: sh) vs hlen hv]
+  simp only [List.isEmpty_cons, Bool.false_eq_true, if_false]
+  rw [valsOf_nums]; rfl
+
 /-! non-vacuity: the value [[1, -2, 3], [4, 5, -6]] (Int16) held as little-endian int16 in C order, as big-endian
     int16 in Fortran order inside a larger buffer (offset 2), as int8 reversed along the last axis (negative stride) -/
 def exRepD : Data := .array [.num 1, .num (-2), .num 3, .num 4, .num 5, .num (-6)]
@@ -356,8 +391,23 @@ example : encArr exRepS = encArr exRepU ∧ encArr exRepS = .ok [0, 0, 0, 2, 0, 
   decide
 example : Holds (storeC .d true [] [4607182418800017408]) .float64 [] (.scalar (.num 4607182418800017408)) :=
   ⟨by decide, by decide, by rfl⟩
-example : (storeC .l false [2] [7, -1]).ty? = some .int32 ∧
-    encArr (storeC .l false [2] [7, -1]) = encArr (storeC .i true [2] [7, -1]) := by decide
+/-- int64 little-endian and int32 big-endian, values within 32 bits: both hold [7, -1] as Int32, same bytes -/
+example : encArr (storeC .l false [2] [7, -1]) = encArr (storeC .i true [2] [7, -1]) :=
+  (C05_representation_independent _ _ .int32 [2] _
+    (C05_rep_store_holds .l false .int32 2 [] [7, -1] (by decide) (by decide) (by decide))
+    (C05_rep_store_holds .i true .int32 2 [] [7, -1] (by decide) (by decide) (by decide)) (by decide)).1
+/-- a Python bool, a Python bytes and a big-endian float64 0-d array as scalars -/
+example : encArr ((Cell.num .bool 1).toArr false) = .ok [1, 0, 0, 0] ∧
+    encArr ((Cell.bstr [104, 105]).toArr false) = .ok [0, 0, 0, 2, 104, 105, 0, 0] ∧
+    encArr ((Cell.ustr [104, 105]).toArr true) = .ok [0, 0, 0, 2, 104, 105, 0, 0] :=
+  ⟨(C05_rep_scalar_forms false _ .byte (.num 1) (by decide) (by decide) (by decide) (by decide)).2,
+   (C05_rep_scalar_forms false _ .string (.str [104, 105]) (by decide) (by decide) (by decide) (by decide)).2,
+   (C05_rep_scalar_forms true _ .string (.str [104, 105]) (by decide) (by decide) (by decide) (by decide)).2⟩
+/-- a record (Byte, String) on the general path: (Python bool, `bytes`) and (uint8 scalar, `str`) -/
+example : encCellsGeneral [(false, .num .bool 1), (false, .bstr [97])]
+    = encCellsGeneral [(false, .num .B 1), (true, .ustr [97])] :=
+  (C05_rep_record_general_path [.byte, .string] _ _ [.num 1, .str [97]] (by decide) (by decide) (by decide)
+    (by decide) (by decide) (by decide) (by decide)).1
 example : ∃ a : NpArr, a.char = .h ∧ a.char.narrow = true ∧ a.ty? = some .int16 := ⟨exRepC, by decide⟩
 example : encArr { exRepC with char := .e } = .error .keyError := C05_rep_unsupported_dtype _ (Or.inl rfl)
 /-- a record (Int32, String, Float64) held as (Python int, `str`, numpy float64) and as (big-endian int32 0-d array,
